@@ -296,8 +296,8 @@ fn eval_dna(dna_bytes: &[u8], ctx: &mut Ctx) -> Result<(), (Failure, Value)> {
 
 fn worker(ctx: &mut Ctx) {
     let cases = match ctx.cfg.tier {
-        Tier::Quick => 6_000u64,
-        Tier::Thorough => 150_000u64,
+        Tier::Quick => 40_000u64,
+        Tier::Thorough => 600_000u64,
     };
     // fixed probes of the recorded known finding (zero-length IDAT chunk), shard 0 only
     if ctx.cfg.shard == 0 {
